@@ -28,7 +28,7 @@ ASSUMPTIONS = [
     'the post-processed pair is judged only when both sides have the same number of lines after removals and the text oracle gives a definite set of unexcused pairs',
     'paths in messages contain no spaces (harness-chosen)',
 ]
-REQUIRED_MONITORS = ['fs:assertions_watched', 'artefact:raw_actual_checked', 'artefact:postprocessed_checked',
+REQUIRED_MONITORS = ['config:two_suites_with_their_own_tmp_dir', 'fs:assertions_watched', 'artefact:raw_actual_checked', 'artefact:postprocessed_checked',
                      'artefact:binary_checked', 'fs:passing_checked', 'msg:commands_parsed']
 REQUIRED_CLASSES = ['entry=string', 'entry=file', 'entry=files', 'entry=binary', 'outcome=fail', 'outcome=pass']
 
@@ -53,13 +53,28 @@ def setup(ctx):
         import tempfile
         tempfile.tempdir = None
     from tdda.referencetest.referencetest import ReferenceTest
-    if mode == 0:
+    klass = ReferenceTest
+    if mode == 0 and ctx.shard % 2 == 0:
         ReferenceTest.set_defaults(tmp_dir=_tmp)
+    elif mode == 0:
+        # defaults are set "at the class level": two suites configure their own classes, the other one LAST and before
+        # any instance exists - this suite's artefacts still belong in this suite's directory
+        class SuiteA(ReferenceTest):
+            pass
+
+        class SuiteB(ReferenceTest):
+            pass
+        other = os.path.join(ctx.scratch, 'faildir_of_another_suite')
+        os.makedirs(other, exist_ok=True)
+        SuiteA.set_defaults(tmp_dir=_tmp)
+        SuiteB.set_defaults(tmp_dir=other)
+        klass = SuiteA
+        ctx.rec.event('config:two_suites_with_their_own_tmp_dir')
     ReferenceTest.set_defaults(verbose=False)
 
     def assert_fn(ok, msg):
         _outcomes.append((bool(ok), msg))
-    _rt = ReferenceTest(assert_fn)
+    _rt = klass(assert_fn)
     ctx.rec.cls('tmpdir_mode=%s' % ['set_defaults', 'TDDA_FAIL_DIR', 'TMPDIR'][mode])
     return _rt
 
